@@ -3,6 +3,7 @@ package model
 import (
 	"strconv"
 	"strings"
+	"unicode"
 
 	"verif/harness/internal/core"
 	"verif/harness/proto"
@@ -50,7 +51,9 @@ func plainIdent(s string) bool {
 		return false
 	}
 	for i, ch := range s {
-		if ch == '_' || ch >= 'a' && ch <= 'z' || ch >= 'A' && ch <= 'Z' || (i > 0 && ch >= '0' && ch <= '9') {
+		// what mkdb's scanner takes as an identifier character: letters and
+		// (after the first character) decimal digits of any script
+		if ch == '_' || unicode.IsLetter(ch) || (i > 0 && unicode.IsDigit(ch)) {
 			continue
 		}
 		return false
